@@ -5,12 +5,13 @@ Parts
               notify / notify_all) x generated schedules over the REAL
               billiard.synchronize.Condition on simulated semaphores (E4)
   event       the same for the REAL Event (set / clear / is_set / wait)
-  cond_dfs2   ALL schedules of every 2-thread Condition program with <=2 ops
-              per thread (exhaustive)
-  event_dfs2  ALL schedules of every 2-thread Event program with <=2 ops per
-              thread (exhaustive)
-  cond_dfs3   thorough only: 3-thread Condition programs, all schedules with
-              at most 3 preemptions (not claimed exhaustive)
+  cond_dfs2   ALL schedules (one per class of interleavings equal up to
+              commuting independent semaphore operations) of every 2-thread
+              Condition program with <=2 ops per thread (exhaustive)
+  event_dfs2  the same for every 2-thread Event program with <=2 ops per thread
+  cond_dfs3   the same for 3-thread Condition programs: one op per thread
+  event_dfs3  (quick), plus one thread with two ops (thorough; exhaustive only
+              if neither the per-program cap nor the time cap cut in)
   real        real Lock / RLock / Semaphore(n) / BoundedSemaphore(n) contended
               by 2-8 processes x threads; holder witness in shared memory
   seqsem      real BoundedSemaphore / Semaphore / RLock driven sequentially
@@ -29,13 +30,17 @@ LEVEL = 'exploration'
 RULE = ('cond/event: Hypothesis draws a program (2-5 logical threads, 1-3 ops '
         'each; Condition on RLock, RLock held twice, or plain Lock) and a '
         'schedule = list of choices among the enabled semaphore-level '
-        'transitions (incl. "timeout fires"); *_dfs2 enumerate every schedule '
-        'of every 2-thread program with <=2 ops per thread; cond_dfs3 every '
-        'schedule with <=3 preemptions of 3-thread programs. A cond case is '
-        'non-trivial when a wait timeout fires while another thread is inside '
-        'notify/notify_all, or a notify is issued while >=2 waiters are '
-        'waiting; an event case when a timeout fires while a set() holds the '
-        'lock or a set() finds >=2 sleeping waiters. real: non-trivial when '
+        'transitions (incl. "timeout fires"); *_dfs2 enumerate, for every '
+        '2-thread program with <=2 ops per thread, one schedule of every class '
+        'of interleavings that differ only in the order of commuting '
+        'semaphore operations (sleep sets); *_dfs3 do so for 3-thread '
+        'programs (one op per thread; thorough: one thread may have two). '
+        'A cond case is '
+        'non-trivial when a timed-out waiter acknowledges its wake-up (first '
+        'semaphore operation after the timeout fired) while another thread is '
+        'inside notify/notify_all, or a notify is issued while >=2 waiters are '
+        'waiting; an event case when that acknowledgement happens while a '
+        'set() holds the lock or a set() finds >=2 sleeping waiters. real: non-trivial when '
         'the lock was actually contended (some non-blocking acquire failed) '
         'and, for semaphores with n>=2, >=2 holders were seen inside together. '
         'seqsem: non-trivial when an over-release or a refused acquire '
@@ -46,6 +51,14 @@ ASSUMPTIONS = [
     'per-object count/owner, recursive kind re-enters without a semaphore op',
     'interleavings are explored at the granularity of semaphore operations; '
     'Python code between two semaphore operations is atomic',
+    'DFS parts: operations of different threads on different semaphores, a '
+    '"timeout fires" transition (touches no semaphore) against anything of '
+    'another thread, and two posts to one unbounded semaphore are taken to '
+    'commute; one representative per equivalence class is executed '
+    '(engines/detsched.py independent()); API-level log order and lock order '
+    'are the same for all members of a class',
+    'an epilogue that passed from some semaphore-value state is not re-run '
+    'from the same state within a process (it is a function of that state)',
     'Condition/Event are built through a fake context whose Lock/RLock/'
     'Semaphore return billiard wrapper objects made as SemLock.__setstate__ '
     'makes them; Condition/Event/wrapper code itself runs unmodified',
@@ -57,7 +70,7 @@ ASSUMPTIONS = [
     'sleepers, wait+notify, timed wait, wait+notify) probes that the '
     'condition was left consistent, using API-level observations only',
 ]
-SHARDS = {'quick': 4, 'thorough': 16}
+SHARDS = {'quick': 8, 'thorough': 16}
 
 
 # ===========================================================================
@@ -94,6 +107,23 @@ def event_cases():
                             min_size=2, max_size=5),
         'sched': _sched(),
     })
+
+
+def _inline_pick(threads):
+    """One logical thread may run on the harness thread itself (one real
+    thread less per case): the first whose script has no untimed wait, i.e.
+    that can never legitimately sleep for ever (engine restriction)."""
+    for tid, ops in enumerate(threads):
+        if not any(op[0] == 'w' and not op[1] for op in ops):
+            return tid
+    return None
+
+
+# Epilogues that passed, keyed by the complete state they started from (the
+# values of the simulated semaphores; Condition/Event hold no other state).
+# The epilogue is a deterministic function of that state, so re-running it
+# from a state already probed in this process cannot tell anything new.
+_EPILOGUE_OK = set()
 
 
 class _Held:
@@ -183,7 +213,7 @@ def _cond_verdict(trace, sched, waitname):
     in_notify = {}       # tid -> kind
     active = set()
     labels = set()
-    untimed_false = None
+    timedout = set()
     for ev in trace:
         if ev[0] == 'api':
             tid, what = ev[1], ev[2]
@@ -207,6 +237,13 @@ def _cond_verdict(trace, sched, waitname):
                 in_notify.pop(tid, None)
         elif ev[3] == 'timeout' and ev[2] == waitname:
             labels.add('timeout_fired')
+            timedout.add(ev[1])
+        elif ev[1] in timedout:
+            # the timed-out waiter's acknowledgement (its first semaphore
+            # operation after the timeout) - unlike the position of the
+            # timeout transition itself its place relative to the notifier's
+            # operations is the same in all equivalent interleavings
+            timedout.discard(ev[1])
             if any(t != ev[1] for t in in_notify):
                 labels.add('timeout_in_notify')
     for lt in sched.threads:
@@ -270,9 +307,14 @@ def run_cond(case, chooser=None):
         sctx = SimCtx(sched)
         cond = sctx.Condition(sctx.Lock() if kind == 'lock' else None)
         waitname = cond._wait_semaphore._semlock.name
+        inl = _inline_pick(case['threads'])
         for tid, ops in enumerate(case['threads']):
-            sched.spawn(_cond_script(sched, cond, depth, tid, ops))
-        sched.run([int(x) for x in case['sched']], chooser=chooser)
+            if tid != inl:
+                sched.spawn(_cond_script(sched, cond, depth, tid, ops))
+        sched.run([int(x) for x in case['sched']], chooser=chooser,
+                  inline=None if inl is None else _cond_script(
+                      sched, cond, depth, inl, case['threads'][inl]),
+                  inline_name='t%s' % inl)
         if sched.pruned:
             return None, sched
         if sched.overrun:
@@ -282,6 +324,12 @@ def run_cond(case, chooser=None):
         labels.add('threads=%d' % len(case['threads']))
         labels.add('lock=' + kind)
         nontrivial = bool(labels & {'timeout_in_notify', 'notify_2waiters'})
+        memo = None
+        if sig is None and not sched.stuck():
+            memo = ('cond', kind, tuple(sl.value for sl in sctx.sems),
+                    tuple(sl.count for sl in sctx.sems[:1]))
+            if memo in _EPILOGUE_OK:
+                return ok(nontrivial, sorted(labels)), sched
         if sig is None:
             # epilogue: was the condition left consistent?  Probes, each run
             # to quiescence with default scheduling before the next starts:
@@ -304,15 +352,22 @@ def run_cond(case, chooser=None):
                     sig, detail = ('C17/cond/lost-wakeup/epilogue', 'sleepers '
                                    'left after repeated notify_all (%s)' % name)
                     break
-                sched.spawn(_cond_script(sched, cond, depth, name, ops), name)
-                sched.run(None, record=False)
+                script = _cond_script(sched, cond, depth, name, ops)
                 if name in ('W', 'W2'):
-                    continue      # asleep until the notifier comes
+                    # sleepers: real threads; they start (and, by the default
+                    # rule, run until they sleep, W first) when N1 is run
+                    sched.spawn(script, name)
+                    continue
+                sched.run_inline(script, name)   # notifiers: on this thread
                 sig, detail, _ = _cond_verdict(sched.trace, sched, waitname)
                 if sig is not None:
                     sig += '/epilogue'
                     detail = 'after the program, probe %s: %s' % (name, detail)
                     break
+            if sig is None and sched.overrun:
+                return inconclusive('step budget exhausted'), sched
+            if sig is None and memo is not None:
+                _EPILOGUE_OK.add(memo)
         if sig is not None:
             return bad(sig, detail + '\ntrace: ' + _fmt_trace(sched.trace),
                        labels=sorted(labels)), sched
@@ -355,6 +410,7 @@ def _event_verdict(trace, sched, lockname, waitname):
     labels = set()
     sleepers = {}     # op id -> record of waits sleeping in cond.wait
     holder = None     # op record holding the lock
+    timedout = set()
     for pos, ev in enumerate(trace):
         if ev[0] == 'api':
             tid, what = ev[1], ev[2]
@@ -372,11 +428,13 @@ def _event_verdict(trace, sched, lockname, waitname):
                 if op['expected'] is None:
                     return ('C17/event/protocol', 'op %s returned without a '
                             'complete critical section' % op['id'], labels)
-                if res is not op['expected']:
+                if not any(res is x for x in op['expected']):
                     name = 'is_set' if op['kind'] == 'i' else 'wait'
                     return ('C17/event/%s-result' % name,
-                            '%s %s returned %r, lock order says %r'
+                            '%s %s returned %r, lock order allows %r'
                             % (name, op['id'], res, op['expected']), labels)
+                if len(op['expected']) > 1:
+                    labels.add('wait_result_racy')
                 if op['kind'] != 'i':
                     labels.add('wait_true' if res else 'wait_false')
         elif ev[2] == lockname:
@@ -391,20 +449,34 @@ def _event_verdict(trace, sched, lockname, waitname):
                         labels.add('set_2sleepers')
                     for o in sleepers.values():
                         o['set_after'] = True
+                        o['cleared'] = False
                 elif k == 'c':
                     flag = False
+                    for o in sleepers.values():
+                        o['cleared'] = True
                 elif k == 'i':
-                    op['expected'] = flag
+                    op['expected'] = (flag,)
                 elif op['sections'] == 1:
                     op['first'] = flag
                     if flag:
-                        op['expected'] = True
+                        op['expected'] = (True,)
                     else:
                         sleepers[op['id']] = op
                 elif op['sections'] == 2:
                     sleepers.pop(op['id'], None)
                     if not op['first']:
-                        op['expected'] = flag
+                        # the statement fixes the result only where "set
+                        # before the deadline" is unambiguous at this level:
+                        # never set while asleep -> False; set (and still set)
+                        # and no timeout involved -> True.  A clear racing the
+                        # wake-up, or a timeout that fired (it has no place
+                        # relative to the set), leaves both answers open.
+                        if not op.get('set_after'):
+                            op['expected'] = (False,)
+                        elif op.get('cleared') or op.get('timedout'):
+                            op['expected'] = (True, False)
+                        else:
+                            op['expected'] = (True,)
                 else:
                     return ('C17/event/protocol', 'wait %s took the lock three '
                             'times' % op['id'], labels)
@@ -412,6 +484,11 @@ def _event_verdict(trace, sched, lockname, waitname):
                 holder = None
         elif ev[3] == 'timeout' and ev[2] == waitname:
             labels.add('timeout_fired')
+            timedout.add(ev[1])
+            if ev[1] in cur:
+                cur[ev[1]]['timedout'] = True
+        elif ev[1] in timedout:
+            timedout.discard(ev[1])     # the acknowledgement, see run_cond
             if holder is not None and holder['kind'] == 's' \
                     and holder['tid'] != ev[1]:
                 labels.add('timeout_in_set')
@@ -455,9 +532,14 @@ def run_event(case, chooser=None):
         ev = sctx.Event()
         lockname = ev._cond._lock._semlock.name
         waitname = ev._cond._wait_semaphore._semlock.name
+        inl = _inline_pick(case['threads'])
         for tid, ops in enumerate(case['threads']):
-            sched.spawn(_event_script(sched, ev, tid, ops))
-        sched.run([int(x) for x in case['sched']], chooser=chooser)
+            if tid != inl:
+                sched.spawn(_event_script(sched, ev, tid, ops))
+        sched.run([int(x) for x in case['sched']], chooser=chooser,
+                  inline=None if inl is None else _event_script(
+                      sched, ev, inl, case['threads'][inl]),
+                  inline_name='t%s' % inl)
         if sched.pruned:
             return None, sched
         if sched.overrun:
@@ -467,18 +549,26 @@ def run_event(case, chooser=None):
         labels = set(labels)
         labels.add('threads=%d' % len(case['threads']))
         nontrivial = bool(labels & {'timeout_in_set', 'set_2sleepers'})
+        memo = None
+        if sig is None and not sched.stuck():
+            memo = ('event', tuple(sl.value for sl in sctx.sems),
+                    tuple(sl.count for sl in sctx.sems[:1]))
+            if memo in _EPILOGUE_OK:
+                return ok(nontrivial, sorted(labels)), sched
         if sig is None:
             # legit sleepers first: every set() must wake all of them (a
             # woken thread may clear and wait again, hence the rounds)
             steps = [('X%d' % i, [['s']])
                      for i in range(max(len(t) for t in case['threads']))]
             steps.append(('Xlast', []))
-            # P: probes alone, then sleeps in an untimed wait; S wakes it and
-            # P goes on: wait while set, clear, timed wait (must be False)
-            # P2 sleeps too: one set() must wake both
-            steps += [('P', [['i'], ['c'], ['i'], ['w', 1], ['w', 0], ['i'],
+            # P2 clears and sleeps; P probes alone (is_set, clear, timed wait
+            # that must be False) and sleeps too; one set() by S must wake
+            # both with True (P2, the older thread, re-reads before P goes on
+            # to clear); P: wait while set, clear, timed wait (False again)
+            steps += [('P2', [['c'], ['w', 0]]),
+                      ('P', [['i'], ['c'], ['i'], ['w', 1], ['w', 0], ['i'],
                              ['w', 0], ['w', 1], ['c'], ['w', 1], ['i']]),
-                      ('P2', [['w', 0]]), ('S', [['s'], ['i']])]
+                      ('S', [['s'], ['i']])]
             for name, ops in steps:
                 if name[0] == 'X' and not sched.stuck():
                     continue
@@ -487,10 +577,11 @@ def run_event(case, chooser=None):
                                    'sleepers left after %d set() rounds'
                                    % (len(steps) - 4))
                     break
-                sched.spawn(_event_script(sched, ev, name, ops), name)
-                sched.run(None, record=False)
+                script = _event_script(sched, ev, name, ops)
                 if name in ('P', 'P2'):
+                    sched.spawn(script, name)    # sleepers: real threads
                     continue
+                sched.run_inline(script, name)
                 sig, detail, _ = _event_verdict(sched.trace, sched, lockname,
                                                 waitname)
                 if sig is None and sched.stuck() and name[0] != 'X':
@@ -500,6 +591,10 @@ def run_event(case, chooser=None):
                     sig += '/epilogue'
                     detail = 'after the program, probe %s: %s' % (name, detail)
                     break
+            if sig is None and sched.overrun:
+                return inconclusive('step budget exhausted'), sched
+            if sig is None and memo is not None:
+                _EPILOGUE_OK.add(memo)
         if sig is not None:
             return bad(sig, detail + '\ntrace: ' + _fmt_trace(sched.trace),
                        labels=sorted(labels)), sched
@@ -529,18 +624,21 @@ def programs2(alphabet):
     return [[s[i], s[j]] for i in range(len(s)) for j in range(i, len(s))]
 
 
-def programs3(alphabet):
-    """3 threads: unordered triples of scripts with 1..2 ops in which at most
-    one thread has two ops"""
+def programs3(alphabet, two=True):
+    """3 threads: unordered triples of one-op scripts, plus (two=True) the
+    programs in which one of the three threads has two ops"""
     one = _scripts(alphabet, 1)
-    two = [x for x in _scripts(alphabet, 2) if len(x) == 2]
+    twos = [x for x in _scripts(alphabet, 2) if len(x) == 2]
     out = []
     for i in range(len(one)):
         for j in range(i, len(one)):
             for k in range(j, len(one)):
                 out.append([one[i], one[j], one[k]])
-            for t in two:
-                out.append([one[i], one[j], t])
+    if two:
+        for i in range(len(one)):
+            for j in range(i, len(one)):
+                for t in twos:
+                    out.append([one[i], one[j], t])
     return out
 
 
@@ -622,7 +720,71 @@ def real_cases():
         st.sampled_from(['fork', 'fork', 'fork', 'fork', 'fork', 'spawn']))
 
 
+class _TrackerWatch:
+    """The spawn start method makes billiard launch a semaphore-tracker
+    helper process that lives as long as its pipe; remember its pid so that
+    the case can end it (nothing may outlive a case)."""
+
+    def __enter__(self):
+        from billiard import semaphore_tracker as st_mod
+        self.mod = st_mod
+        self.pids = []
+        self.orig = st_mod.spawnv_passfds
+
+        def spawnv(*a, **kw):
+            pid = self.orig(*a, **kw)
+            self.pids.append(pid)
+            return pid
+        st_mod.spawnv_passfds = spawnv
+        return self
+
+    def __exit__(self, *exc):
+        import gc
+        self.mod.spawnv_passfds = self.orig
+        gc.collect()                 # run the semaphores' unlink finalizers
+        tr = self.mod._semaphore_tracker
+        with tr._lock:
+            fd, tr._fd = tr._fd, None
+        if fd is not None and self.pids:
+            os.close(fd)
+        elif fd is not None:
+            tr._fd = fd              # not ours: started before this case
+        for pid in self.pids:
+            deadline = time.monotonic() + 20
+            while True:
+                got, _ = os.waitpid(pid, os.WNOHANG)
+                if got:
+                    break
+                if time.monotonic() > deadline:
+                    os.kill(pid, 9)
+                    os.waitpid(pid, 0)
+                    break
+                time.sleep(0.005)
+        return False
+
+
+def real_fixed(seed):
+    """quick tier: a fixed spread over the four kinds, 2-8 parties, process /
+    thread mixes; iteration counts vary with the seed"""
+    rows = [('lock', 1, 2, 1, 1, 0, 'fork'), ('lock', 1, 1, 2, 1, 200, 'fork'),
+            ('lock', 1, 4, 2, 1, 20, 'fork'), ('lock', 1, 3, 1, 1, 20, 'spawn'),
+            ('rlock', 1, 2, 2, 2, 20, 'fork'), ('rlock', 1, 3, 1, 3, 0, 'fork'),
+            ('rlock', 1, 1, 3, 2, 200, 'fork'), ('rlock', 1, 4, 1, 1, 20, 'fork'),
+            ('sem', 2, 4, 1, 1, 20, 'fork'), ('sem', 2, 2, 3, 1, 200, 'fork'),
+            ('sem', 3, 4, 2, 1, 20, 'fork'), ('sem', 3, 1, 4, 1, 200, 'fork'),
+            ('bsem', 2, 3, 2, 1, 20, 'fork'), ('bsem', 2, 2, 2, 1, 0, 'fork'),
+            ('bsem', 1, 2, 1, 1, 20, 'fork'), ('bsem', 3, 8, 1, 1, 20, 'fork')]
+    return [{'kind': k, 'n': n, 'procs': p, 'threads': t, 'depth': d,
+             'hold': h, 'method': m, 'iters': 80 + 40 * ((seed + i) % 4)}
+            for i, (k, n, p, t, d, h, m) in enumerate(rows)]
+
+
 def execute_real(case):
+    with _TrackerWatch():
+        return _execute_real(case)
+
+
+def _execute_real(case):
     import billiard
     from engines import targets_c17 as tg
     kind, n = case['kind'], case['n']
@@ -673,6 +835,8 @@ def execute_real(case):
         if board is not None:
             board.close()
         shutil.rmtree(tmp, ignore_errors=True)
+        del ps[:]
+        prim = pr = None
     labels = ['kind=' + kind, 'parties=%d' % parties,
               'procs=%d' % procs, 'method=' + case.get('method', 'fork')]
     if any(c != 0 for c in codes):
@@ -705,11 +869,11 @@ def seq_cases():
     op = st.one_of(st.tuples(st.just('a'), st.just(0)),
                    st.tuples(st.just('r'), st.just(0)),
                    st.tuples(st.just('r'), st.just(0)),
-                   st.tuples(st.just('o'), st.integers(0, 1)))
+                   st.tuples(st.just('o'), st.sampled_from([0, 0, 0, 0, 1])))
     return st.fixed_dictionaries({
         'kind': st.sampled_from(['bsem', 'bsem', 'sem', 'rlock', 'lock']),
         'n': st.integers(1, 4),
-        'ops': st.lists(op.map(list), min_size=1, max_size=30),
+        'ops': st.lists(op.map(list), min_size=1, max_size=16),
     })
 
 
@@ -747,21 +911,17 @@ def execute_seq(case):
         return box[0]
 
     def other_process():
-        r, w = os.pipe()
-        pid = os.fork()
-        if pid == 0:
-            code = 2
-            try:
-                got = prim.acquire(False)
-                if got:
-                    prim.release()
-                code = 1 if got else 0
-            finally:
-                os._exit(code)
-        os.close(r)
-        os.close(w)
-        _, status = os.waitpid(pid, 0)
-        return {0: False, 1: True}.get(os.waitstatus_to_exitcode(status))
+        # a billiard Process, so that the after-fork hook that disowns
+        # inherited locks runs as it does for every real worker
+        from engines import targets_c17 as tg
+        pr = bctx.Process(target=tg.probe_main, args=(prim,))
+        pr.start()
+        pr.join(60)
+        if pr.is_alive():
+            pr.terminate()
+            pr.join(5)
+            return None
+        return {tg.PROBE_GOT: True, tg.PROBE_REFUSED: False}.get(pr.exitcode)
 
     for i, op in enumerate(case['ops']):
         what = op[0]
@@ -851,25 +1011,52 @@ def execute_seq(case):
 
 PARTS = {'cond': execute_cond, 'event': execute_event,
          'cond_dfs2': execute_cond, 'event_dfs2': execute_event,
-         'cond_dfs3': execute_cond, 'real': execute_real,
+         'cond_dfs3': execute_cond, 'event_dfs3': execute_event,
+         'real': execute_real,
          'seqsem': execute_seq}
 
 
 def run(ctx):
     thorough = ctx.tier == 'thorough'
+    def note(e):
+        ctx.notes['dfs_runs_abandoned_as_redundant'] = \
+            ctx.notes.get('dfs_runs_abandoned_as_redundant', 0) + e.abandoned
+        ctx.notes['dfs_programs'] = ctx.notes.get('dfs_programs', 0) + e.nprog
+
     for lock in (['rlock', 'lock', 'rlock2'] if thorough else ['rlock']):
         e = _Enumerator(ctx, run_cond, {'lock': lock}, programs2(_COND_OPS))
         ctx.enumerate('cond_dfs2', e.cases(), e.execute)
+        note(e)
     e = _Enumerator(ctx, run_event, {}, programs2(_EVENT_OPS))
     ctx.enumerate('event_dfs2', e.cases(), e.execute)
-    ctx.explore('cond', cond_cases(), execute_cond, n=ctx.pick(700, 30000))
-    ctx.explore('event', event_cases(), execute_event, n=ctx.pick(500, 20000))
-    ctx.explore('seqsem', seq_cases(), execute_seq, n=ctx.pick(60, 1500))
-    ctx.explore('real', real_cases(), execute_real, n=ctx.pick(3, 40),
-                shrink_budget=0, reexecute_confirm=2)
+    note(e)
+    # the generated parts are time-capped (a cut is recorded as budget_cut,
+    # never a violation): a context switch costs 30 us on an idle box and
+    # milliseconds on a busy one
+    ctx.explore('cond', cond_cases(), execute_cond, n=ctx.pick(300, 30000),
+                time_cap=ctx.pick(10, 240))
+    ctx.explore('event', event_cases(), execute_event, n=ctx.pick(250, 20000),
+                time_cap=ctx.pick(8, 180))
+    ctx.explore('seqsem', seq_cases(), execute_seq, n=ctx.pick(25, 1500),
+                time_cap=ctx.pick(5, 60))
     if thorough:
-        e = _Enumerator(ctx, run_cond, {'lock': 'rlock'},
-                        programs3(_COND_OPS), bound=3, limit=20000)
-        ctx.enumerate('cond_dfs3', e.cases(), e.execute,
+        ctx.explore('real', real_cases(), execute_real, n=40,
+                    shrink_budget=0, reexecute_confirm=2, time_cap=150)
+    else:
+        ctx.enumerate('real', real_fixed(ctx.seed), execute_real,
                       complete_is_exhaustive=False)
-        ctx.notes['cond_dfs3_programs_truncated'] = e.truncated
+    # three threads: quick = one op per thread; thorough adds the programs in
+    # which one thread has two ops.  No preemption bound (sleep sets make the
+    # full enumeration affordable); a per-program cap of 30000 runs and a time
+    # cap guard the budget - the part is exhaustive only if neither cut in.
+    for part, runner, alphabet in (('cond_dfs3', run_cond, _COND_OPS),
+                                   ('event_dfs3', run_event, _EVENT_OPS)):
+        e = _Enumerator(ctx, runner,
+                        {'lock': 'rlock'} if runner is run_cond else {},
+                        programs3(alphabet, two=thorough), limit=30000)
+        ctx.enumerate(part, e.cases(), e.execute,
+                      time_cap=None if not thorough else 200)
+        note(e)
+        if e.truncated and ctx.wants(part):
+            ctx.part(part).exhaustive = False
+            ctx.notes[part + '_programs_truncated'] = e.truncated
